@@ -110,7 +110,7 @@ func MergeAll(repo repository.ClockedRepo, remote string) <-chan entity.MergeRes
 
 			if err != nil {
 				out <- entity.NewMergeInvalidStatus(id, errors.Wrap(err, "merge failed").Error())
-				return
+				continue
 			}
 
 			if updated {
